@@ -130,6 +130,12 @@ CHECKS = {
     "C39": ("mc-store", MC, "explicit-state BFS (E2) over trade sequences on the real update_leaderboard plus E1 on extend_competition_time",
             "Every sequence of counted trades by seven traders with three or four volume increments to the stated depth: at most five distinct entries, sorted, latest volumes, filled with the top traders, excluded traders not above the last entry; extensions over end time/duration/cap/trigger time at the i64 limits never move the end earlier nor past max(old end, now + cap).",
             "merge-window/threshold bookkeeping of the on_executed handler is not explored", "§5 C39"),
+    "C19": ("mc-store", E1, "exhaustive enumeration (E1) of the instruction x signer matrix through the real program entrypoints in the in-process runtime",
+            "Every probed privileged store instruction (named in the evidence) is executed with valid accounts by the entitled signer (passes authorisation) and by a stranger, the admin and the single-role holder of each of nine other roles (must be rejected; rejected instructions commit nothing). Timelock instructions are covered by C36, market config updates by C20, execute/close by C23.",
+            "claims only the instructions listed in the evidence (34 of the store's guarded instructions); GLV, virtual inventory, position-order, treasury, liquidity-provider and competition administration are not probed", "§6 C19"),
+    "C40": ("mc-store", E1, "exhaustive differential enumeration (E1) of program vs SDK on identical account bytes",
+            "Sizes of every zero-copy account declared for the SDK; every model accessor of the program Market vs the SDK MarketModel over a family of market contents (all keys populated, closed x closed-params x every flag, all pools populated, pure market); swaps and fee-state updates on a real RevertibleMarket vs the SDK model under the same stubbed time; real deposit/withdrawal instructions vs the SDK simulation (amounts and resulting views).",
+            "position increase/decrease differential not covered; discount comparison is C31", "§5 C40"),
 }
 
 NOT_YET = "no check built yet in this round (planned in DESIGN.md); not claimed"
